@@ -88,7 +88,7 @@ def run_virtual(coro):
 
 
 # =========================================================================== one Coq evaluation per run
-ALL_MODELS = ['Model.Rfcomm', 'Model.RfcommMux', 'Model.RfcommSm', 'Model.HfpSlc', 'Model.AtSkeleton',
+ALL_MODELS = ['Model.Rfcomm', 'Model.RfcommMux', 'Model.RfcommSm', 'Model.RfcommSm2', 'Model.HfpSlc', 'Model.AtSkeleton',
               'Gen.C20Consts', 'Gen.C20AgSkeleton']
 
 
@@ -644,6 +644,369 @@ def _compare_sm(ctx, schedules, model):
             first = next((i for i, (a, b) in enumerate(zip(mt, trace)) if a != b), None)
             ctx.disagree('RFCOMM set-up/teardown', {'labels': [SM_LABELS[l] for l in sched], 'first_diff': first},
                          mt[first] if first is not None else None, trace[first] if first is not None else None)
+
+
+# =========================================================================== several links: set-up / teardown
+# labels of Model/RfcommSm2.v as integers: 0 connect, 10+d open channel d, 20+d initiator
+# disconnects link d, 30+d responder disconnects link d, 4 multiplexer disconnect, 7 close,
+# 8 / 9 deliver one frame A->B / B->A.  Channel d of the model is RFCOMM channel SM2_CH[d];
+# the responder's acceptor accepts the first two and refuses the third.
+SM2_CH = [3, 5, 7]
+SM2_DLCI = {6: 0, 10: 1, 14: 2}
+
+
+def sm2_label_coq(l):
+    if l == 0:
+        return 'L_Connect'
+    if 10 <= l < 20:
+        return f'(L_Open {l - 10})'
+    if 20 <= l < 30:
+        return f'(L_ADisc {l - 20})'
+    if 30 <= l < 40:
+        return f'(L_BDisc {l - 30})'
+    return {4: 'L_MuxDisc', 7: 'L_Close', 8: 'L_DeliverAB', 9: 'L_DeliverBA'}[l]
+
+
+def sm2_label_name(l):
+    return sm2_label_coq(l).strip('()')
+
+
+def classify2(pdu: bytes):
+    """control frame -> fr2_code of Model/RfcommSm2.v; None for an MSC frame"""
+    dlci, ftype, pf, info = parse_frame(pdu)
+    if dlci == 0:
+        if ftype == SABM:
+            return 0
+        if ftype == UA:
+            return 1
+        if ftype == DISC:
+            return 2
+        if ftype == UIH:
+            mcc = info[0] >> 2
+            if mcc == 0x20:
+                d = SM2_DLCI.get(info[2], 9)
+                return (100 if (info[0] >> 1) & 1 else 110) + d
+            if mcc == 0x38:
+                return None
+        return 999
+    d = SM2_DLCI.get(dlci, 9)
+    if ftype == DM:
+        return 120 + d
+    if ftype == SABM:
+        return 130 + d
+    if ftype == UA:
+        return 140 + d
+    if ftype == DISC:
+        return 150 + d
+    return 998
+
+
+def gen_sm2_schedule(rng, n):
+    """the multiplexer and mostly link 0 (sometimes link 1 too) are brought up in the
+    straightforward order; then opens and disconnects of different links are submitted
+    close to each other, with deliveries in between"""
+    up0 = [10, 8, 9, 8, 9]
+    up1 = [11, 8, 9, 8, 9]
+    out = [0, 8, 9]
+    r = rng.below(8)
+    if r < 6:
+        out += up0
+    if r < 3:
+        out += up1
+    ops = [10, 11, 12, 20, 21, 30, 31]
+    for _ in range(n):
+        x = rng.below(100)
+        if x < 45:
+            out.append(rng.choice([8, 9]))
+        elif x < 90:
+            out.append(rng.choice(ops))
+            if rng.chance(1, 2):
+                out.append(rng.choice(ops))       # a second operation in flight at the same time
+        elif x < 95:
+            out.append(4)
+        else:
+            out.append(rng.choice([0, 7]))
+    out += [8, 9] * rng.choice([0, 4, 10])
+    return out
+
+
+def enum_sm2_schedules(depth):
+    """link 0 up (and, in the second family, link 1 too), then EVERY sequence of the given
+    length over: open 1 / open refused channel / either end disconnects link 0 / deliveries
+    (second family: open refused / disconnects of link 0 and 1 / deliveries)"""
+    base0 = [0, 8, 9, 10, 8, 9, 8, 9]
+    for seq in itertools.product([11, 12, 20, 30, 8, 9], repeat=depth):
+        yield base0 + list(seq) + [8, 9] * 6
+    if depth >= 4:
+        base1 = base0 + [11, 8, 9, 8, 9]
+        for seq in itertools.product([12, 20, 31, 8, 9], repeat=depth):
+            yield base1 + list(seq) + [8, 9] * 6
+
+
+def run_sm2_impl(labels, exchange=True):
+    """Drive two real Multiplexers with three channels; after every label: states of both
+    ends, the pending open, whether an open_dlc was resolved wrongly, channel contents."""
+    async def main():
+        from bumble.rfcomm import Multiplexer, DLC
+        from bumble import core
+        pair = Pair()
+        pair.mb.acceptor = lambda ch: (512, 5) if ch in SM2_CH[:2] else None
+        closed = False
+        opens = []        # [channel index, task, judged]
+        discs = []        # disconnect() tasks
+        bad = False
+        first_bad = None
+        problems = []
+
+        def spawn(coro):
+            t = asyncio.ensure_future(coro)
+            t.add_done_callback(lambda t: t.cancelled() or t.exception())
+            return t
+
+        def flush_msc():
+            # MSC frames change no state: deliver them as soon as they reach a channel head
+            progress = True
+            while progress:
+                progress = False
+                while pair.ab and classify2(pair.ab[0]) is None:
+                    pair.deliver_ab()
+                    progress = True
+                while pair.ba and classify2(pair.ba[0]) is None:
+                    pair.deliver_ba()
+                    progress = True
+
+        def slot_state(mux, d):
+            dlc = mux.dlcs.get(SM2_CH[d] * 2)
+            return int(dlc.state) if dlc is not None else -1
+
+        trace = []
+        for idx, l in enumerate(labels):
+            if not closed:
+                if l == 0:
+                    if pair.ma.state == Multiplexer.State.INIT:
+                        spawn(pair.ma.connect())
+                elif 10 <= l < 20:
+                    d = l - 10
+                    if pair.ma.state == Multiplexer.State.CONNECTED:
+                        if pair.ma.dlcs.get(SM2_CH[d] * 2) is None:
+                            opens.append([d, spawn(pair.ma.open_dlc(SM2_CH[d], 600, 4)), False])
+                    else:
+                        # only one open_dlc may be in flight; otherwise the call must raise
+                        # InvalidStateError at once and change nothing
+                        before = (int(pair.ma.state), len(pair.ab))
+                        t = spawn(pair.ma.open_dlc(SM2_CH[d], 600, 4))
+                        await asyncio.sleep(0)
+                        if not (t.done() and isinstance(t.exception(), core.InvalidStateError)
+                                and before == (int(pair.ma.state), len(pair.ab))):
+                            problems.append(f'label {idx}: open_dlc while the multiplexer is '
+                                            f'{pair.ma.state.name} did not fail cleanly')
+                            t.cancel()
+                elif 20 <= l < 30:
+                    dlc = pair.ma.dlcs.get(SM2_CH[l - 20] * 2)
+                    if dlc is not None and dlc.state == DLC.State.CONNECTED:
+                        discs.append(spawn(dlc.disconnect()))
+                elif 30 <= l < 40:
+                    dlc = pair.mb.dlcs.get(SM2_CH[l - 30] * 2)
+                    if dlc is not None and dlc.state == DLC.State.CONNECTED:
+                        discs.append(spawn(dlc.disconnect()))
+                elif l == 4:
+                    spawn(pair.ma.disconnect())
+                elif l == 7:
+                    if not pair.ab and not pair.ba and pair.ma.state == Multiplexer.State.DISCONNECTED:
+                        pair.la.emit('close')
+                        pair.lb.emit('close')
+                        closed = True
+                elif l == 8:
+                    pair.deliver_ab()
+                elif l == 9:
+                    pair.deliver_ba()
+                flush_msc()
+                for _ in range(3):
+                    await asyncio.sleep(0)
+                flush_msc()
+            # judge the open_dlc calls that completed
+            for o in opens:
+                d, t, judged = o
+                if t.done() and not judged and not t.cancelled():
+                    o[2] = True
+                    exc = t.exception()
+                    if d < 2:
+                        ok = exc is None and t.result().dlci == SM2_CH[d] * 2
+                    else:
+                        ok = isinstance(exc, core.ConnectionError)
+                    if not ok:
+                        bad = True
+                        if first_bad is None:
+                            first_bad = (f'label {idx} ({sm2_label_name(l)}): open_dlc(channel {d}) ended with '
+                                         f'{type(exc).__name__ if exc else "DLC " + str(t.result().dlci)}')
+            pend = next((o[0] for o in opens if not o[1].done()), -1)
+            o = [[int(pair.ma.state), slot_state(pair.ma, 0), slot_state(pair.ma, 1), pend],
+                 [int(pair.mb.state), slot_state(pair.mb, 0), slot_state(pair.mb, 1), -1],
+                 bad, [c for c in map(classify2, pair.ab) if c is not None],
+                 [c for c in map(classify2, pair.ba) if c is not None]]
+            trace.append(o)
+            if not problems and first_bad:
+                problems.append(first_bad)
+            if not problems and not pair.ab and not pair.ba:
+                v = sm2_oracle(pair, o, opens, discs, closed)
+                if v:
+                    problems.append(f'after label {idx} ({sm2_label_name(l)}): {v}')
+            if pair.escaped and not problems:
+                problems.append(f'exception escaped frame processing: {pair.escaped[0]}')
+        # byte-exact transfer on the links that survive
+        if exchange and not closed and not problems and not pair.ab and not pair.ba:
+            for d in (0, 1):
+                da = pair.ma.dlcs.get(SM2_CH[d] * 2)
+                db = pair.mb.dlcs.get(SM2_CH[d] * 2)
+                if da is None or db is None or da.state != DLC.State.CONNECTED or db.state != DLC.State.CONNECTED:
+                    continue
+                got_a, got_b = bytearray(), bytearray()
+                da.sink = got_a.extend
+                db.sink = got_b.extend
+                wa, wb = gen_bytes(d + 1, 2500), gen_bytes(d + 7, 1700)
+                da.write(wa)
+                db.write(wb)
+                await pair.pump()
+                if bytes(got_b) != wa or bytes(got_a) != wb:
+                    problems.append(f'surviving link {d}: wrote {len(wa)}/{len(wb)} bytes, peer received '
+                                    f'{len(got_b)}/{len(got_a)}')
+        for o in opens:
+            if not o[1].done():
+                o[1].cancel()
+        for t in discs:
+            if not t.done():
+                t.cancel()
+        await asyncio.sleep(0)
+        return trace, (problems[0] if problems else None)
+    return run_virtual(main())
+
+
+def sm2_oracle(pair, o, opens, discs, closed):
+    """nothing in flight: both multiplexers settled and equal, the two DLC tables hold the same
+    links in the same settled states, no open_dlc / disconnect call is left pending"""
+    names_m = ['INIT', 'CONNECTING', 'CONNECTED', 'OPENING', 'DISCONNECTING', 'DISCONNECTED']
+    ma, mb = o[0][0], o[1][0]
+    if ma != mb or ma not in (0, 2, 5):
+        return f'multiplexer states {names_m[ma]} / {names_m[mb]} with nothing in flight'
+    ta = {k: v.state.name for k, v in sorted(pair.ma.dlcs.items())}
+    tb = {k: v.state.name for k, v in sorted(pair.mb.dlcs.items())}
+    if ta != tb or any(v not in ('CONNECTED', 'RESET') for v in ta.values()):
+        return f'DLC tables {ta} / {tb} with nothing in flight'
+    if not closed:
+        if any(not x[1].done() for x in opens):
+            return 'an open_dlc() call is still pending with nothing in flight'
+        if any(not t.done() for t in discs):
+            return 'a disconnect() call is still pending with nothing in flight'
+        if any(t.done() and not t.cancelled() and t.exception() for t in discs):
+            return 'a disconnect() call failed'
+    return None
+
+
+def run_sm2(ctx, schedules, batch=None):
+    own = batch is None
+    batch = batch or Batch()
+    exprs = ['sm2_trace sm2_init ' + coq_list(s, sm2_label_coq) for s in schedules]
+    batch.add(exprs, lambda model: _compare_sm2(ctx, schedules, model))
+    _flush_if_own(ctx, batch, own)
+
+
+def _compare_sm2(ctx, schedules, model):
+    for k, (sched, m) in enumerate(zip(schedules, model)):
+        trace, bad = run_sm2_impl(sched)
+        overlap = any(o[0][3] >= 0 and (3 in (o[0][1], o[0][2], o[1][1], o[1][2])) for o in trace)
+        ctx.case(('sm2', sched), overlap, {'kind': 'sm2', 'labels': [sm2_label_name(l) for l in sched]} if k % 80 == 9 else None)
+        ctx.count('sm2.schedules')
+        ctx.count('sm2.labels', len(sched))
+        if overlap:
+            ctx.count('sm2.open_and_close_in_flight_together')
+        if any(o[0][1] == 2 and o[0][2] == 2 for o in trace):
+            ctx.count('sm2.two_links_up')
+        if bad:
+            ctx.violation('rfcomm:multi-teardown', f'RFCOMM set-up/teardown of several links: {bad}',
+                          {'kind': 'sm2', 'labels': sched})
+        mt = [[list(a), list(b), bd, list(x), list(y)] for (a0, a1, a2, a3, b, bd, x, y) in m
+              for a in [(a0, a1, a2, a3)]]
+        if mt != trace:
+            first = next((i for i, (a, b) in enumerate(zip(mt, trace)) if a != b), None)
+            ctx.disagree('RFCOMM set-up/teardown of several links',
+                         {'labels': [sm2_label_name(l) for l in sched], 'first_diff': first},
+                         mt[first] if first is not None else None, trace[first] if first is not None else None)
+
+
+def e2e_multi_impl(order):
+    """real Devices: links on channels 1 and 2 are up; link 1 is closed (by the initiator, or
+    by the responder) while open_dlc(3) is in flight; order: which call is submitted first"""
+    async def one():
+        from tests.test_utils import TwoDevices
+        from bumble import rfcomm
+        devices = TwoDevices()
+        await devices.setup_connection()
+        server = rfcomm.Server(devices.devices[0])
+        muxes = []
+        server.on(server.EVENT_START, muxes.append)
+        accepted = {}
+        for ch in (1, 2, 3):
+            server.listen(acceptor=lambda dlc: accepted.__setitem__(dlc.dlci >> 1, dlc), channel=ch)
+        mux = await rfcomm.Client(devices.connections[1]).start()
+        dlc1 = await mux.open_dlc(1)
+        dlc2 = await mux.open_dlc(2)
+        for _ in range(50):
+            await asyncio.sleep(0)
+        closer = accepted[1] if order.endswith('responder') else dlc1
+        if order.startswith('close'):
+            tc = asyncio.ensure_future(closer.disconnect())
+            to = asyncio.ensure_future(mux.open_dlc(3))
+        else:
+            to = asyncio.ensure_future(mux.open_dlc(3))
+            tc = asyncio.ensure_future(closer.disconnect())
+        problems = []
+        try:
+            await asyncio.wait_for(tc, 5)
+        except Exception as e:
+            problems.append(f'disconnect() of link 1 ended with {type(e).__name__}')
+        dlc3 = None
+        try:
+            dlc3 = await asyncio.wait_for(to, 5)
+        except Exception as e:
+            problems.append(f'open_dlc(3) ended with {type(e).__name__} while link 1 was being closed')
+        for _ in range(50):
+            await asyncio.sleep(0)
+        ta = {k: v.state.name for k, v in sorted(mux.dlcs.items())}
+        tb = {k: v.state.name for k, v in sorted(muxes[0].dlcs.items())}
+        if ta != {4: 'CONNECTED', 6: 'CONNECTED'} or tb != ta:
+            problems.append(f'DLC tables initiator {ta} / responder {tb}')
+        if mux.state.name != 'CONNECTED' or muxes[0].state.name != 'CONNECTED':
+            problems.append(f'multiplexer states {mux.state.name} / {muxes[0].state.name}')
+        for name, a, b in (('2', dlc2, accepted.get(2)), ('3', dlc3, accepted.get(3))):
+            if a is None or b is None:
+                continue
+            got_a, got_b = bytearray(), bytearray()
+            a.sink = got_a.extend
+            b.sink = got_b.extend
+            wa, wb = gen_bytes(3, 1300), gen_bytes(4, 800)
+            a.write(wa)
+            b.write(wb)
+            for _ in range(20000):
+                if bytes(got_b) == wa and bytes(got_a) == wb:
+                    break
+                await asyncio.sleep(0)
+            if bytes(got_b) != wa or bytes(got_a) != wb:
+                problems.append(f'link {name}: bytes received differ from bytes written')
+        return problems
+    return run_virtual(one())
+
+
+E2E_MULTI_ORDERS = ['close-then-open', 'open-then-close', 'close-then-open-responder', 'open-then-close-responder']
+
+
+def run_e2e_multi(ctx):
+    for order in E2E_MULTI_ORDERS:
+        problems = e2e_multi_impl(order)
+        ctx.case(('e2e_multi', order), True, None)
+        ctx.count('e2e.multi_cases')
+        if problems:
+            ctx.violation('rfcomm:multi-teardown', f'two-device RFCOMM, {order}: ' + '; '.join(problems),
+                          {'kind': 'e2e_multi', 'order': order})
 
 
 # =========================================================================== HFP SLC
@@ -1214,6 +1577,10 @@ def run(ctx):
         'around multiples of the payload limit) and single-frame deliveries in both directions, then drained; '
         'non-trivial = at least two frames on the wire. sm: random schedules over connect/open/disconnect/'
         'mux-disconnect/accept-toggle/close/deliver labels; non-trivial = a data link reached CONNECTED. '
+        'sm2: three channels (two accepted, one refused) on one multiplexer: random schedules that submit opens and '
+        'disconnects of different links close together, plus EVERY 3-label (thorough: 5-label) sequence over open / '
+        'disconnect by either end / deliveries after a link is up; non-trivial = an open and a close were in flight '
+        'at the same time; surviving links then carry 2500/1700 bytes. '
         'slc: full product of the three branch-driving feature bits on each side (64 combinations) x random other '
         'bits, indicator lists (0-5 entries), codec lists, call-hold sets (0-7), AG indicator lists with contiguous / '
         'single / sparse value sets; non-trivial = completed with more than four commands. ag: every _on_* handler x '
@@ -1259,6 +1626,14 @@ def run(ctx):
             scheds.append(base + list(seq) + [8, 9, 8, 9, 8, 9])
         ctx.extra['exhaustive_sm_suffix_depth'] = 5
     run_sm(ctx, scheds, batch)
+    # ---- set-up / teardown of several links on one multiplexer
+    scheds2 = [c['replay']['labels'] for c in corpus if c['replay']['kind'] == 'sm2']
+    r = rng.fork('sm2')
+    for _ in range(ctx.n(150, 2500)):
+        scheds2.append(gen_sm2_schedule(r, r.choice([6, 10, 16, 24])))
+    scheds2.extend(enum_sm2_schedules(ctx.n(3, 5)))
+    ctx.extra['exhaustive_sm2_depth'] = ctx.n(3, 5)
+    run_sm2(ctx, scheds2, batch)
     # ---- HFP SLC
     slc_cases = [c['replay']['case'] for c in corpus if c['replay']['kind'] == 'slc']
     r = rng.fork('slc')
@@ -1278,6 +1653,7 @@ def run(ctx):
     run_hf_reader(ctx)
     # ---- end to end
     run_e2e(ctx, rng.fork('e2e'), ctx.n(4, 40))
+    run_e2e_multi(ctx)
 
 
 def search(ctx):
@@ -1307,6 +1683,12 @@ def search(ctx):
         bad = run_sm_impl(s)[1]
         if bad:
             ctx.violation('rfcomm:teardown', f'RFCOMM set-up/teardown: {bad}', {'kind': 'sm', 'labels': s})
+            return
+    for s in itertools.chain(enum_sm2_schedules(4), (gen_sm2_schedule(rng, 20) for _ in range(500))):
+        bad = run_sm2_impl(s)[1]
+        if bad:
+            ctx.violation('rfcomm:multi-teardown', f'RFCOMM set-up/teardown of several links: {bad}',
+                          {'kind': 'sm2', 'labels': s})
             return
 
 
@@ -1342,6 +1724,15 @@ def replay_one(ctx, r, report=False):
         if verdict is None and (not alive or leftover):
             verdict = f'AG wedged, read buffer {leftover[:40]!r}'
             sig = 'ag:session:wedged'
+    elif r['kind'] == 'sm2':
+        trace, bad = run_sm2_impl(r['labels'])
+        verdict = bad
+        sig = 'rfcomm:multi-teardown'
+    elif r['kind'] == 'e2e_multi':
+        problems = e2e_multi_impl(r['order'])
+        if problems:
+            verdict = '; '.join(problems)
+            sig = 'rfcomm:multi-teardown'
     elif r['kind'] == 'hfreader':
         junk = bytes.fromhex(r['junk'])
         if not hf_reader_impl([junk])[0][1]:
